@@ -8,6 +8,10 @@
 //   qcmp a b m [f] rc     same through QField<Rational>::ratrecon(r,f,m,rc)         = num den
 //   qf   f m k rc         QField<Rational>::ratrecon(r,f,m,k,rc)                    = num den
 //   pr   p dk fr nP P.. nM M..   Poly1Dom<Modular<int64_t>>::ratrecon(N,D,P,M,dk,fr) = ok nN N.. nD D..
+//   ucmp  n d m k fr f    ZRing<Integer>::ratrecon(num,den,f,m,k,fr,false), f = n/d mod m built by the generator   = ok num den
+//   ucmp7 n d m k fr f    ZRing<Integer>::RationalReconstruction(a,b,f,m,k,fr,true)                                 = ok num den
+//   ucmpq n d m k rc f    QField<Rational>::ratrecon(r,f,m,k,rc)                                                    = num den
+//   pcmp  p dk nA A.. nB B.. nM M.. nP P..   ratrecon(N,D,P,M,dk,true), P = A/B mod M built by the generator        = ok nN N.. nD D..
 // With argv = "<tier> <seed>" the harness generates its cases (structured, see gen_*); with no argument it
 // reads case lines from stdin (replay).
 #include "proto.h"
@@ -110,6 +114,32 @@ static void run_case(const std::vector<std::string>& t) {
         Rational r;
         QQ.ratrecon(r, Z(1), Z(2), Z(3), B(4));
         emit_line(in, H(r.nume()) + " " + H(r.deno()));
+    } else if (key == "ucmp") {
+        bool ok = ZZ.ratrecon(num, den, Z(6), Z(3), Z(4), B(5), false);
+        emit_line(in, H(ok) + " " + H(num) + " " + H(den));
+    } else if (key == "ucmp7") {
+        bool ok = ZZ.RationalReconstruction(num, den, Z(6), Z(3), Z(4), B(5), true);
+        emit_line(in, H(ok) + " " + H(num) + " " + H(den));
+    } else if (key == "ucmpq") {
+        Rational r;
+        QQ.ratrecon(r, Z(6), Z(3), Z(4), B(5));
+        emit_line(in, H(r.nume()) + " " + H(r.deno()));
+    } else if (key == "pcmp") {
+        long long p = strtoll(t.at(1).c_str(), nullptr, 16);
+        long long dk = strtoll(t.at(2).c_str(), nullptr, 16);
+        Field F((int64_t)p);
+        PolDom PD(F, "X");
+        size_t pos = 3;
+        auto rd = [&](PolDom::Element& A) {
+            long long n = strtoll(t.at(pos++).c_str(), nullptr, 16);
+            A.resize((size_t)n);
+            for (long long i = 0; i < n; ++i) F.init(A[(size_t)i], (int64_t)strtoll(t.at(pos++).c_str(), nullptr, 16));
+            PD.setdegree(A);
+        };
+        PolDom::Element A, Bp, M, P, N, D;
+        rd(A); rd(Bp); rd(M); rd(P);
+        bool ok = PD.ratrecon(N, D, P, M, Degree(dk), true);
+        emit_line(in, H(ok) + " " + polystr(PD, N) + " " + polystr(PD, D));
     } else if (key == "pr") {
         long long p = strtoll(t.at(1).c_str(), nullptr, 16);
         long long dk = strtoll(t.at(2).c_str(), nullptr, 16);
@@ -372,6 +402,160 @@ static void gen_poly_random(vp::Rng& g, size_t count) {
     }
 }
 
+// ------------------------------------------------------------------------------------------------
+// uniqueness / completeness generators (depth round)
+// ------------------------------------------------------------------------------------------------
+static Integer residue_of(const Integer& n, const Integer& d, const Integer& m) {   // n * d^-1 mod m, or -1
+    Integer f;
+    mpz_t inv; mpz_init(inv);
+    if (mpz_invert(inv, d.get_mpz_const(), m.get_mpz_const())) {
+        mpz_mul(inv, inv, n.get_mpz_const());
+        mpz_mod(inv, inv, m.get_mpz_const());
+    } else mpz_set_si(inv, -1);
+    mpz_set(f.get_mpz(), inv);
+    mpz_clear(inv);
+    return f;
+}
+static void ucmp_lines(const Integer& n, const Integer& d, const Integer& m, const Integer& k, unsigned sel) {
+    Integer f = residue_of(n, d, m);
+    if (f < 0) return;
+    switch (sel % 5) {          // other representatives of the same residue class
+        case 1: f += m; break;
+        case 2: f -= m; break;
+        case 3: f -= m * 3; break;
+        case 4: f += m * 2; break;
+        default: break;
+    }
+    std::string fr = (sel & 1) ? "1" : "0";
+    C({"ucmp", H(n), H(d), H(m), H(k), fr, H(f)});
+    if (sel % 3 == 0) C({"ucmp7", H(n), H(d), H(m), H(k), fr, H(f)});
+    if (sel % 4 == 0) C({"ucmpq", H(n), H(d), H(m), H(k), (sel & 2) ? "1" : "0", H(f)});
+}
+// every reduced n/d with |n| < k, 2 k d <= m, gcd(d,m) = 1, for every m <= mmax and k in [1,m]
+static void gen_unique_small(long long mmax) {
+    unsigned sel = 0;
+    for (long long m = 2; m <= mmax; ++m)
+        for (long long k = 1; k <= m; ++k)
+            for (long long d = 1; 2 * k * d <= m; ++d) {
+                if (gcdll(d, m) != 1) continue;
+                for (long long n = -k + 1; n < k; ++n) {
+                    if (gcdll(n, d) != 1) continue;
+                    ucmp_lines(Integer((int64_t)n), Integer((int64_t)d), Integer((int64_t)m), Integer((int64_t)k), sel++);
+                }
+            }
+}
+static void gen_unique_large(vp::Rng& g, size_t count) {
+    static const unsigned sizes[] = {6, 9, 16, 31, 32, 33, 63, 64, 65, 100, 128, 129, 256, 400};
+    for (size_t it = 0; it < count; ++it) {
+        unsigned bits = sizes[g.below(sizeof sizes / sizeof *sizes)];
+        Integer m = gen_modulus(g, bits);
+        if (m < 8) m = 8;
+        // k anywhere in [1, m/2]; d at the edge of 2 k d <= m or below; n at the edge of |n| < k or inside
+        Integer k;
+        switch (g.below(6)) {
+            case 0: k = 1; break;
+            case 1: k = 2; break;
+            case 2: k = isqrt(m); break;
+            case 3: k = m / 2; break;
+            case 4: k = m / 3; break;
+            default: Integer::mod(k, rand_bits(g, bits), m / 2); k += 1;
+        }
+        if (k < 1) k = 1;
+        Integer dmax = m / (k * 2);
+        if (dmax < 1) continue;
+        Integer d, n;
+        switch (g.below(4)) {
+            case 0: d = dmax; break;
+            case 1: d = 1; break;
+            default: Integer::mod(d, rand_bits(g, bits), dmax); d += 1;
+        }
+        switch (g.below(5)) {
+            case 0: n = k - 1; break;
+            case 1: n = -(k - 1); break;
+            case 2: n = 0; break;
+            default: Integer::mod(n, rand_bits(g, bits), k * 2 - 1); n -= (k - 1);
+        }
+        for (int tries = 0; tries < 64 && d >= 1; ++tries) {
+            if (gcd(d, m) == 1 && gcd(n, d) == 1) break;
+            d -= 1;
+        }
+        if (d < 1 || gcd(d, m) != 1 || gcd(n, d) != 1) continue;
+        ucmp_lines(n, d, m, k, (unsigned)g.below(60));
+    }
+}
+
+// pcmp: P = A * B^-1 mod M (+ T*M), with deg A <= dk, deg B < deg M - dk, gcd(B,M) = 1
+static void pcmp_case(long long p, long long dk, const std::vector<long long>& Av, const std::vector<long long>& Bv,
+                      const std::vector<long long>& Mv, const std::vector<long long>& Tv) {
+    Field F((int64_t)p);
+    PolDom PD(F, "X");
+    auto mk = [&](PolDom::Element& X, const std::vector<long long>& v) {
+        X.resize(v.size());
+        for (size_t i = 0; i < v.size(); ++i) F.init(X[i], (int64_t)v[i]);
+        PD.setdegree(X);
+    };
+    PolDom::Element A, Bp, M, T, G, R, X;
+    mk(A, Av); mk(Bp, Bv); mk(M, Mv); mk(T, Tv);
+    Degree dg;
+    PD.degree(dg, Bp);
+    if (dg.value() < 0) return;
+    PD.gcd(G, Bp, M);
+    PD.degree(dg, G);
+    if (dg.value() != 0) return;
+    PD.invmod(R, Bp, M);
+    PD.mulin(R, A);
+    PD.modin(R, M);
+    PD.mul(X, T, M);
+    PD.addin(R, X);
+    std::vector<std::string> t = {"pcmp", H(p), H(dk)};
+    auto push = [&](const PolDom::Element& Y) {
+        std::istringstream ss(polystr(PD, Y));
+        std::string w;
+        while (ss >> w) t.push_back(w);
+    };
+    push(A); push(Bp); push(M); push(R);
+    run_guarded(t);
+}
+static void gen_pcmp_exhaustive(long long p, int lenM) {
+    long long nM = ipow(p, lenM);
+    for (long long im = 0; im < nM; ++im) {
+        std::vector<long long> M = poly_of_index(im, p, lenM);
+        int dM = pdeg(M);
+        if (dM < 1) continue;
+        for (long long dk = 0; dk < dM; ++dk) {
+            long long nA = ipow(p, (int)dk + 1), nB = ipow(p, dM - (int)dk);
+            for (long long ia = 0; ia < nA; ++ia)
+                for (long long ib = 1; ib < nB; ++ib) {
+                    std::vector<long long> T;
+                    if ((ia + ib + im) % 5 == 0) T = {1, (ia % p)};      // residue of degree >= deg M
+                    pcmp_case(p, dk, poly_of_index(ia, p, (int)dk + 1), poly_of_index(ib, p, dM - (int)dk), M, T);
+                }
+        }
+    }
+}
+static void gen_pcmp_random(vp::Rng& g, size_t count) {
+    static const long long primes[] = {2, 3, 5, 7, 101, 65521, 2147483647LL};
+    for (size_t it = 0; it < count; ++it) {
+        long long p = primes[g.below(7)];
+        int dM = 1 + (int)g.below(it % 8 == 0 ? 40 : 14);
+        auto coef = [&]() -> long long { switch (g.below(6)) { case 0: return 0; case 1: return 1; case 2: return p - 1; default: return (long long)g.below((uint64_t)p); } };
+        std::vector<long long> M((size_t)dM + 1);
+        for (auto& c : M) c = coef();
+        M[(size_t)dM] = 1 + (long long)g.below((uint64_t)(p - 1));
+        long long dk = (long long)g.below((uint64_t)dM);
+        // degrees at the edge of the bounds or inside
+        int dA = g.below(3) == 0 ? (int)dk : (int)g.below((uint64_t)dk + 1);
+        int dB = g.below(3) == 0 ? dM - (int)dk - 1 : (int)g.below((uint64_t)(dM - dk));
+        std::vector<long long> A((size_t)dA + 1), B((size_t)dB + 1), T;
+        for (auto& c : A) c = coef();
+        for (auto& c : B) c = coef();
+        B[(size_t)dB] = 1 + (long long)g.below((uint64_t)(p - 1));
+        if (g.below(4) == 0) A.assign(1, 0);                                   // zero numerator
+        if (g.below(4) == 0) { T.resize(1 + g.below(3)); for (auto& c : T) c = coef(); }
+        pcmp_case(p, dk, A, B, M, T);
+    }
+}
+
 int main(int argc, char** argv) {
     static QField<Rational> theQQ;
     QQp = &theQQ;
@@ -393,6 +577,12 @@ int main(int argc, char** argv) {
         gen_poly_exhaustive(3, thorough ? 4 : 3, thorough ? 5 : 4);
         if (thorough) gen_poly_exhaustive(5, 3, 4);
         gen_poly_random(g, thorough ? 40000 : 5000);
+        gen_unique_small(thorough ? 72 : 44);
+        gen_unique_large(g, thorough ? 60000 : 6000);
+        gen_pcmp_exhaustive(2, thorough ? 6 : 5);
+        gen_pcmp_exhaustive(3, thorough ? 4 : 3);
+        if (thorough) gen_pcmp_exhaustive(5, 3);
+        gen_pcmp_random(g, thorough ? 40000 : 5000);
         fflush(stdout);
         return 0;
     }
